@@ -33,7 +33,7 @@ func init() {
 	register(&Property{
 		ID:      "C04",
 		NeedSSA: true,
-		Decided: "Narrow structural necessary conditions only: (dst) in every Encode/Decode method under encoding/ the reusable output buffer (and the offsets buffer of DecodeByteArray) is only truncated, measured with cap(), passed to a helper obeying the same rule, reinterpreted with unsafecast, or returned — results cannot depend on what the buffers held before; (tables) the encoding tables map each code to the implementation that reports it (C01.tables); (twins) the tree type-checks in every build configuration (amd64, purego, arm64, 386, s390x; thorough tier) so each accelerated kernel has a portable twin with the same signature. (pairs) for every page encoding the kinds with an Encode method of its own are exactly the kinds with a Decode method of its own.",
+		Decided: "Narrow structural necessary conditions only: (dst) in every Encode/Decode method under encoding/ the reusable output buffer (and the offsets buffer of DecodeByteArray) is only truncated, measured with cap(), passed to a helper obeying the same rule, reinterpreted with unsafecast, or returned — results cannot depend on what the buffers held before; (tables) the encoding tables map each code to the implementation that reports it (C01.tables); (twins) the tree type-checks in every build configuration (amd64, purego, arm64, 386, s390x; thorough tier) so each accelerated kernel has a portable twin with the same signature. (pairs) for every page encoding the kinds with an Encode method of its own are exactly the kinds with a Decode method of its own. (viewstate) when Slice of a page type computes an integer field as a position inside a unit (x % 8), the Data method of the type reads that field, directly or through a method of the same receiver.",
 		NotDecided: "losslessness, conformance with the format specification, equality of assembly and portable kernels (assembly is not analysed), bit-level arithmetic inside encoders and decoders (a wrong index, an off-by-one guard or a wrong copy source inside a kernel is invisible to these rules).",
 		Assumptions: []string{"see DESIGN.md §4 C04"},
 		Run:         runC04,
@@ -365,6 +365,7 @@ func runC03(c *Ctx) {
 }
 
 func runC04(c *Ctx) {
+	runViewStateRule(c, "C04.viewstate", 1)
 	runDstRule(c, "C04.dst", []string{"/encoding"}, nil)
 	c.Min("C04.dst", 50)
 	runTableRule(c, "C04.tables", "encodings", "Encoding", 9)
